@@ -48,33 +48,22 @@ Proof. exact partial_slice. Qed.
 Print Assumptions c14_partial_slice.
 
 (** (c, size) Under the hypothesis on Go's multipart.Reader (it returns a
-    part's content without the CRLF preceding the next delimiter line), the
-    size BODYSTRUCTURE announces for a leaf is the length of what BODY[p]
-    returns, for every leaf outside the classes trailing_crlf / rewrap. *)
+    part's content without the CRLF preceding the next delimiter line), for
+    EVERY leaf (any encoding, content ending in CRLF or not) the size
+    BODYSTRUCTURE announces is the length of what BODY[p] returns, and the
+    part the reader finds in BODY[] is the stored content itself.
+    (Unconditional since the repairs of trailing_crlf and rewrap.) *)
 Theorem c14_leaf_size_agrees : forall reader_part : str -> str,
   (forall w, has_suffix w crlf = true -> reader_part w = strip2 w) ->
-  forall enc c, classify_leaf enc c = None -> announced_size reader_part enc c = length c.
+  forall enc c, announced_size reader_part enc c = length c.
 Proof. exact leaf_size_agrees. Qed.
 Print Assumptions c14_leaf_size_agrees.
 
-Theorem c14_trailing_crlf_law : forall reader_part : str -> str,
+Theorem c14_leaf_content_agrees : forall reader_part : str -> str,
   (forall w, has_suffix w crlf = true -> reader_part w = strip2 w) ->
-  forall enc c, is_base64 enc && negb (already_wrapped c) = false ->
-  has_suffix c crlf = true -> announced_size reader_part enc c + 2 = length c.
-Proof. exact trailing_crlf_law. Qed.
-Print Assumptions c14_trailing_crlf_law.
-
-Theorem c14_refuted_trailing_crlf : forall reader_part : str -> str,
-  (forall w, has_suffix w crlf = true -> reader_part w = strip2 w) ->
-  exists enc c, classify_leaf enc c = Some TrailingCRLF /\ announced_size reader_part enc c <> length c.
-Proof. exact refuted_trailing_crlf. Qed.
-Print Assumptions c14_refuted_trailing_crlf.
-
-Theorem c14_refuted_rewrap : forall reader_part : str -> str,
-  (forall w, has_suffix w crlf = true -> reader_part w = strip2 w) ->
-  exists enc c, classify_leaf enc c = Some Rewrap /\ announced_size reader_part enc c <> length c.
-Proof. exact refuted_rewrap. Qed.
-Print Assumptions c14_refuted_rewrap.
+  forall enc c, reader_part (written_content enc c) = c.
+Proof. exact leaf_content_agrees. Qed.
+Print Assumptions c14_leaf_content_agrees.
 
 (** the reader hypothesis is satisfiable *)
 Example reader_hypothesis_satisfiable :
@@ -131,17 +120,30 @@ Theorem c14_envelope_quote_roundtrip : forall s : str, imap_unquote (quote_or_ni
 Proof. exact quote_roundtrip. Qed.
 Print Assumptions c14_envelope_quote_roundtrip.
 
-(** Address lists: NOT proved for all inputs (see NOTES/C14.md); the defect
-    classes are witnessed, the plain case is an example. *)
-Theorem c14_refuted_name_comma :
-  exists name local dom, classify_addr name = Some NameComma /\ addr_ok name local dom = false.
-Proof. exact refuted_name_comma. Qed.
-Print Assumptions c14_refuted_name_comma.
+(** Address lists.  net/mail's ParseAddressList (a Go library, the parameter
+    [mail_parse] of the model) reads the header; whenever it reads it as the
+    mailboxes l, the ENVELOPE list is exactly the RFC 3501 structure of l —
+    for all header texts, display names (commas, quotes, backslashes
+    included), local parts and domains.  A header it rejects is read by the
+    old comma splitting.  (The classes name_comma / name_quoted_pair are
+    repaired; see the regression examples in Proof/EnvelopeFacts.v.) *)
+Theorem c14_envelope_address_list_agrees :
+  forall (mail_parse : str -> option (list (str * str))) (s : str) (l : list (str * str * str)),
+  s <> [] -> l <> [] -> forallb dom_ok l = true ->
+  mail_parse s = Some (map mail_addr l) ->
+  parse_address_list mail_parse s = Some (expected_list l).
+Proof. exact address_list_agrees. Qed.
+Print Assumptions c14_envelope_address_list_agrees.
 
-Theorem c14_refuted_name_quoted_pair :
-  exists name local dom, classify_addr name = Some NameQuotedPair /\ addr_ok name local dom = false.
-Proof. exact refuted_name_quoted_pair. Qed.
-Print Assumptions c14_refuted_name_quoted_pair.
+Theorem c14_envelope_address_list_fallback :
+  forall (mail_parse : str -> option (list (str * str))) (s : str),
+  mail_parse s = None -> s <> [] -> parse_address_list mail_parse s = parse_fallback s.
+Proof. exact address_list_fallback. Qed.
+Print Assumptions c14_envelope_address_list_fallback.
 
-Example ex_addr_plain : addr_ok (S_ "Bob Smith") (S_ "bob") (S_ "example.com") = true.
+(** the premise is satisfiable: a reader that returns the two mailboxes of a header *)
+Example ex_addr_list :
+  parse_address_list (fun _ => Some [mail_addr (S_ "Doe, John", S_ "john", S_ "example.com"); mail_addr ([], S_ "a", S_ "b.c")])
+                     (S_ "x") =
+  Some (expected_list [(S_ "Doe, John", S_ "john", S_ "example.com"); ([], S_ "a", S_ "b.c")]).
 Proof. vm_compute. reflexivity. Qed.
